@@ -4,12 +4,19 @@ package main
 import (
 	"fmt"
 	"os"
+	"runtime/debug"
 	"strconv"
 
 	"verif/mc/engine"
 )
 
 var checks = map[string]func(*engine.Report){
+	"C01": engine.CheckC01,
+	"C06": engine.CheckC06,
+	"C08": engine.CheckC08,
+	"C09": engine.CheckC09,
+	"C13": engine.CheckC13,
+	"C18": engine.CheckC18,
 	"C02": engine.CheckC02,
 	"C07": engine.CheckC07,
 	"C10": engine.CheckC10,
@@ -25,6 +32,7 @@ func main() {
 		fmt.Fprintln(os.Stderr, "usage: verif check <ID> <quick|thorough> | replay <file>")
 		os.Exit(2)
 	}
+	debug.SetGCPercent(400)
 	if d := os.Getenv("VERIF_DIR"); d != "" {
 		engine.VerifDir = d
 	}
